@@ -259,8 +259,48 @@ def r3_no_partial_consumption(chk):
         r.require(cfg, 3, "consuming calls in the header path")
 
 
+def r4_staged_header_emitted(chk):
+    r = chk.rule("R4", "a header written into a staging buffer is emitted by the same call", "T4 must-pass-through",
+                 "in every encoder that first writes a frame header into a staging buffer (`self.<buf>.put_*`) and emits it by carving the buffer (`split()`): on every path "
+                 "from the header write to the function's return the carve happens - no frame (for instance a zero-length one) leaves its "
+                 "header behind to be glued to a later frame or lost")
+    for cfg, prog in chk.configs():
+        n = 0
+        for body in prog.bodies.values():
+            if "::tests" in body.path or "_tests::" in body.path or not re.search(r"core/src/(security/framer|protocol/zmtp)/", body.file):
+                continue
+            puts = [c for c in body.calls if re.search(r"BufMut>?::put_(u8|u16|u32|u64)$", c.callee + "|" + c.declared) or c.name in ("put_u8", "put_u64")]
+            by_buf = {}
+            for c in puts:
+                rp = c.recv() or ""
+                if re.match(r"^self\.\w+$", rp):
+                    by_buf.setdefault(rp, []).append(c)
+            for buf, cs in by_buf.items():
+                carves = [c for c in body.calls if c.name in ("split", "split_to", "split_off") and "BytesMut" in c.callee and (c.recv() or "") == buf]
+                if not carves:
+                    continue  # not a staging buffer that is carved (headers written straight into the output)
+                carve_blocks = set(c.blk for c in carves)
+                for c in cs:
+                    loops = body.loops_containing(c.blk)
+                    if not loops:
+                        continue
+                    h, lb = loops[0]  # innermost
+                    n += 1
+                    key = "%s|header staged in %s is carved out in the same iteration#%d" % (short(body.path), buf, len([1 for x in cs if x.blk < c.blk and body.loops_containing(x.blk)]))
+                    # paths from the write that avoid every carve: may they reach the loop header again, or a return?
+                    reach = body.reachable([c.target] if c.target is not None else [], avoid_blocks=carve_blocks)
+                    escapes = [x for x in reach if body.term(x)["k"] == "return"]
+                    if escapes:
+                        r.bad(cfg, key, where(body, c.blk), "after the frame header is written into `%s` a path reaches the function's return without carving it out (`%s.split()`): that frame's header stays in the staging buffer - it is missing from this call's output and turns up in front of a later frame (or is lost)" % (buf, buf))
+                    else:
+                        r.ok(cfg, key, where(body, c.blk), "every path to the return carves the buffer")
+        if cfg in ("default", "noplain", "full", "full-linux"):
+            r.require(cfg, 2, "staged header writes inside encoder loops")
+
+
 def run(chk):
     chk.undecided = ["decode(encode(x)) == x for all frames and all segmentations (value-level)"]
     r1_encoders(chk)
     r2_decoders(chk)
     r3_no_partial_consumption(chk)
+    r4_staged_header_emitted(chk)
